@@ -340,17 +340,17 @@ func (c *CqlClientConnection) readSelfContainedSegment(incoming *segment.Segment
 
 func (c *CqlClientConnection) addMultiSegmentPayload(payload *segment.Payload) (abort bool) {
 	accumulator := c.payloadAccumulator
-	if accumulator.targetLength == 0 {
-		// First reader, read ahead to find the target length
-		if header, err := accumulator.frameCodec.DecodeHeader(bytes.NewReader(payload.UncompressedData)); err != nil {
+	accumulator.accumulatedData = append(accumulator.accumulatedData, payload.UncompressedData...)
+	if accumulator.targetLength == 0 && len(accumulator.accumulatedData) >= primitive.FrameHeaderLengthV3AndHigher {
+		// The frame header is complete (it may itself be split over several segments): read ahead to find the target length
+		if header, err := accumulator.frameCodec.DecodeHeader(bytes.NewReader(accumulator.accumulatedData)); err != nil {
 			log.Error().Err(err).Msgf("%v: error decoding first frame header in multi-segment payload, closing connection", c)
 			return true
 		} else {
 			accumulator.targetLength = int(primitive.FrameHeaderLengthV3AndHigher + header.BodyLength)
 		}
 	}
-	accumulator.accumulatedData = append(accumulator.accumulatedData, payload.UncompressedData...)
-	if accumulator.targetLength == len(accumulator.accumulatedData) {
+	if accumulator.targetLength != 0 && accumulator.targetLength == len(accumulator.accumulatedData) {
 		// We've received enough data to reassemble the whole frame
 		encodedFrame := bytes.NewReader(accumulator.accumulatedData)
 		accumulator.reset()
